@@ -59,7 +59,6 @@ def canonical_problem(x):
     if isinstance(x, sparse.GCXS):
         if x.ndim == 0:
             return None if len(x.data) <= 1 else "0-d array with more than one stored element"
-        ip = np.asarray(x.indptr).astype(np.int64)
         ind = np.asarray(x.indices).astype(np.int64)
         if len(ind) != len(x.data):
             return "indices/data length"
@@ -69,6 +68,9 @@ def canonical_problem(x):
             return None
         if x.ndim == 0:
             return None
+        if x.indptr is None or np.asarray(x.indptr).dtype == object:
+            return f"{x.ndim}-d GCXS without index pointers"
+        ip = np.asarray(x.indptr).astype(np.int64)
         rows, cols = x._compressed_shape
         if len(ip) != rows + 1:
             return f"indptr length {len(ip)} for {rows} rows"
